@@ -111,6 +111,14 @@ def _ctor_cases(quick):
             ent = tuple(ivs[k] + (labs[i % 3],) for i, k in enumerate(combo))
             for sp in spans if n < 3 else spans[:2]:
                 yield ("I", ent, sp[0], sp[1])
+    # ulp-neighbour boundaries: (x, 0.1+0.2) followed by (0.3, y) overlaps by one ulp and must be rejected, not accepted
+    U = (0.1, 0.3, 0.1 + 0.2, 0.8)
+    uiv = [(a, b) for a in U for b in U if a < b]
+    for n in (2, 3):
+        for combo in itertools.combinations(uiv, n):
+            ent = tuple(iv + ("abc"[i],) for i, iv in enumerate(combo))
+            yield ("I", ent, None, None)
+            yield ("I", ent, 0.1, 0.8)
     pts = (0, 1, 2.5, "3", 1)
     for n in range(0, 4):
         for combo in itertools.product(range(len(pts)), repeat=n):
@@ -127,7 +135,8 @@ def parts(tier):
         "constructors", lambda: _ctor_cases(quick), _check_ctor,
         rule="all entry lists of <=%d intervals / <=3 points over the values (0, 1, 2.5, '3') incl. reversed, zero-length, "
              "overlapping, duplicate, string-typed and whitespace-padded entries x 6 requested spans (inside / outside the "
-             "hull / absent): result is well-formed with exactly the given entries, or a praatio error" % (2 if quick else 3),
+             "hull / absent), plus all pairs/triples of intervals on the ulp-neighbour values (0.1, 0.3, 0.1+0.2, 0.8): result is well-formed "
+             "with exactly the given entries, or a praatio error" % (2 if quick else 3),
         bounds={"max_entries": 2 if quick else 3}))
 
     V = (0.0, 0.5, 1.0, 2.0, 3.0)
